@@ -64,10 +64,10 @@ def run(ctx, chk):
         ok = False
         detail = fmt(ps[0].value)[:160] if ps else 'no path'
         for p in ps:
-            v = p.value
-            if v[0] == 't' and v[1] in ('lt', 'le', 'gt', 'ge'):
-                a, b2 = v[2]
-                if v[1] in ('gt', 'ge'):
+            n = common.cmp_norm(p.value)
+            if n is not None and n[0] in ('lt', 'le', 'gt', 'ge'):
+                a, b2 = n[1], n[2]
+                if n[0] in ('gt', 'ge'):
                     a, b2 = b2, a
                 l = common.lin_time(b2)
                 el = a[0] == 't' and a[1] == 'instant_elapsed' and fmt(a[2][0]).startswith('*self.')
